@@ -30,6 +30,7 @@ struct GenOpts {
   bool energy_flag = true;
   double sleep_tolerance = 0;    // >0: override (large values make trees fall asleep within tens of steps)
   double extra_damping = 0;      // added joint damping so that scenes settle quickly
+  bool autoreset_off = false;
 };
 
 struct Model {
@@ -135,6 +136,7 @@ struct Gen {
     if (r.chance(0.1)) opt += " eulerdamp=\"disable\"";
     if (r.chance(0.1)) opt += " filterparent=\"disable\"";
     if (r.chance(0.1)) opt += " refsafe=\"disable\"";
+    if (o.autoreset_off) opt += " autoreset=\"disable\"";
     opt += "/></option>";
 
     // ---------------- bodies
